@@ -76,7 +76,7 @@ Theorem C30_split_table_rows : forall sc dc same wild hs ss sd,
                    else [(Core, ESrc, EWildDst); (Down, EWildDst, EDst)]
   | true, true => [(Core, ESrc, EDst)]
   end
-  /\ (* never more than one segment of a type, up before core before down *)
+  /\ (* at most three requests *)
      (length (table k) <= 3)%nat.
 Proof. intros [] [] [] [] [] [] []; vm_compute; (split; [reflexivity | repeat constructor]). Qed.
 Print Assumptions C30_split_table_rows.
